@@ -126,7 +126,7 @@ Lemma items_of_map ts its : items_of ts = Some its -> ts = map TItem its.
 Proof.
   unfold items_of. revert its. induction ts as [|t ts IH]; intros its H; simpl in H.
   - inversion H. reflexivity.
-  - destruct t as [i| | |]; try discriminate.
+  - destruct t as [i| | | |n]; try discriminate.
     destruct (map_opt _ ts) as [l|]; [|discriminate]. inversion H; subst. simpl. f_equal. apply IH. reflexivity.
 Qed.
 
@@ -205,7 +205,10 @@ Lemma rules_wf_leaf m n h : wf_m m -> rules_wf [RLeaf m n h].
 Proof. intros Hm x [<-|[]]. exact Hm. Qed.
 
 Lemma compile_path_text pat p : compile_path pat = Some p -> pm_text p = pat.
-Proof. unfold compile_path. destruct (rx_parse _); [|discriminate]. intros H. inversion H. reflexivity. Qed.
+Proof.
+  unfold compile_path. destruct (rx_parse _); [|discriminate]. destruct (names_okb _); [|discriminate].
+  intros H. inversion H. reflexivity.
+Qed.
 
 Lemma compile_matcher_wf k pat m : compile_matcher k pat = Some m -> wf_m m.
 Proof.
@@ -214,7 +217,8 @@ Proof.
     intros _. rewrite (compile_path_text _ _ E). exact E.
   - destruct (compile_host pat); [|discriminate]. intros H. inversion H. exact I.
   - intros H. inversion H. exact I.
-  - unfold compile_path_re. destruct (rx_parse pat); [|discriminate]. intros H. inversion H; subst. simpl. discriminate.
+  - unfold compile_path_re. destruct (rx_parse pat); [|discriminate]. destruct (names_okb _); [|discriminate].
+    intros H. inversion H; subst. simpl. discriminate.
 Qed.
 
 Section RRuleInd.
